@@ -147,10 +147,16 @@ PROPS = {
     ),
     'C15': dict(
         title='Attribute, tagged-value and invariant resolution all follow the resolution order',
-        contracts=[], falsifier='C15', modes=['py'], level='other',
-        level_text='Bounded only so far: random interface DAGs <=5 with overlapping definers/tags/invariants and re-basing with warm memo, every accessor against "first definer along __iro__".',
-        level_note='bounded',
-        explanation='bounded run-time contract checking of the real code against an executable specification written from the statement; no obligation discharged yet for this property',
+        contracts=['C15_attrs'], falsifier='C15', modes=['py'], level='other',
+        level_text='Specification.get (with its per-interface memo), direct, getDescriptionFor/__getitem__, __contains__, '
+                   'queryDescriptionFor, namesAndDescriptions(all=True), Element.queryTaggedValue, InterfaceClass.queryTaggedValue and '
+                   'getTaggedValue are verified from their real bodies against ONE specification, "the first interface along __iro__ '
+                   'that defines the name/tag directly", for all interface tables and resolution orders; hence they agree with each '
+                   'other. names(all=True)/iter, getTaggedValueTags, validateInvariants and "follows later changes of __bases__" (memo '
+                   'reset by changed()) are checked bounded on random DAGs with re-basing and a warm memo, labelled bounded.',
+        level_note='names/iter (recursion over __bases__), getTaggedValueTags, validateInvariants and the re-basing clause are bounded; '
+                   'memo validity is a precondition established by changed() (C02).',
+        explanation='accessors proved against one first-definer-along-__iro__ specification; remaining accessors and re-basing bounded',
     ),
     'C16': dict(
         title='Components listings, lookups and events stay mutually consistent',
